@@ -19,7 +19,7 @@ from lib import core, gen, oracle, denote, graphcap
 
 EXTRACTORS = []
 # Props/C01Lower.lean: correctness of the lowering algorithm of `id` for all descriptions (built and audited with C01)
-EXTRA_PROPS = ["C01Lower"]
+EXTRA_PROPS = ["C01Lower", "C01LowerOps"]
 BACKENDS = [None, "numpy", "numpy.numpylike", "numpy.einsum"]
 
 
@@ -433,6 +433,12 @@ def run(ctx):
     rng = ctx.rng
     n_calls = 350 if ctx.quick else 6000
     n_prim = 400 if ctx.quick else 8000
+    if ctx.driver_ok:
+        # Props/C01LowerOps.lean: the lowering models of elementwise operations and reductions against really traced graphs,
+        # with the recomputed instances of lower_elementwise_correct / lower_reduce_correct (a difference is a broken tie)
+        from props import lower_tie
+        from props.c17 import SizedCall, variants
+        lower_tie.lower_tie(ctx, 24 if ctx.quick else 400, SizedCall, variants)
     if ctx.broken:
         n_calls *= 3
     ctx.extra["rule"] = ("grammar-directed einx calls (id with grouping/diagonal/1-axes/broadcast/concat/ellipsis, reductions, elementwise, dot, get_at, argmax/argmin, "
